@@ -11,7 +11,13 @@
 // callable}. The events of an operation are placed on the tickets of its critical sections (identity
 // placement first, otherwise a small search) and replayed in ticket order through a sequential model;
 // every observed result must be reproduced.
+// A second build (-DT_STD_MUTEX, target t_tsan_std) leaves the library's own std::recursive_mutex in place: mode A only,
+// oracle = ThreadSanitizer / sanitizer aborts alone (there are no tickets without the shim). There the first program of
+// every process starts its workers before the main thread has taken the library's lock even once, so that the creation of
+// the lock itself is raced as well.
+#ifndef T_STD_MUTEX
 #define TROMPELOEIL_CUSTOM_RECURSIVE_MUTEX
+#endif
 #include <trompeloeil.hpp>
 #include <rapidcheck.h>
 #include <atomic>
@@ -41,6 +47,7 @@ enum St { IDLE, RUNNING, PARKED, DONE };
 int st[MAXT];
 int granted = -1;
 
+#ifndef T_STD_MUTEX
 struct Mutex : trompeloeil::custom_recursive_mutex {
   // one real lock per object the library asks for: two library mutexes must not exclude each other here either
   std::recursive_mutex real_mu;
@@ -66,11 +73,14 @@ struct Mutex : trompeloeil::custom_recursive_mutex {
     real_mu.unlock();
   }
 };
+#endif
 }  // namespace shim
 
+#ifndef T_STD_MUTEX
 namespace trompeloeil {
 std::unique_ptr<custom_recursive_mutex> create_custom_recursive_mutex() { return std::make_unique<shim::Mutex>(); }
 }
+#endif
 
 // ------------------------------------------------------------------------------------------
 // program description
@@ -733,13 +743,20 @@ static RunResult run_program(const Program& p, bool sched_mode) {
   std::vector<int> slot_id(NSLOTS, -1);
   std::vector<int> mon_ids(MAXTH + 1, -1), own_ids(MAXTH + 1, -1);
   shim::ticket_counter = 0;   // no worker thread is running here
+#ifdef T_STD_MUTEX
+  static bool first_program = true;
+  const bool bare_start = first_program;   // nothing on the main thread may take the library's lock before the workers run
+  first_program = false;
+#else
+  const bool bare_start = false;
+#endif
   // prologue on the main thread (tid -1)
   auto& prec = recs[static_cast<size_t>(p.nthreads)];
-  prec.resize(p.prologue.size());
-  for (size_t i = 0; i < p.prologue.size(); ++i) run_op(-1, static_cast<int>(i), p.prologue[i], slot_id, mon_ids[MAXTH], own_ids[MAXTH], prec[i], 9000);
+  prec.resize(bare_start ? 0 : p.prologue.size());
+  for (size_t i = 0; i < prec.size(); ++i) run_op(-1, static_cast<int>(i), p.prologue[i], slot_id, mon_ids[MAXTH], own_ids[MAXTH], prec[i], 9000);
   // shared deathwatched objects and their requirements (main thread; recorded like prologue operations)
   w.nthreads = p.nthreads;
-  for (int i = 0; i < 2; ++i) {
+  for (int i = 0; i < 2 && !bare_start; ++i) {
     w.sdw[i] = new trompeloeil::deathwatched<Dw>();
     for (int j = 0; j < 2; ++j) {
       OpRec r;
@@ -866,6 +883,9 @@ static RunResult run_program(const Program& p, bool sched_mode) {
     for (auto& kv : touch) if (kv.second.size() >= 2) rr.shared_touch = true;
   }
   if (g_c17) { rr.problem = tracer_problem; return rr; }   // under C17 only the tracing rule is judged (linearizability belongs to C12)
+#ifdef T_STD_MUTEX
+  return rr;   // no tickets without the shim: ThreadSanitizer and the other sanitizers are the oracle of this build
+#endif
   long searched = 0;
   rr.problem = linearizable(all, &searched);
   if (searched) ST.label("placement_searches", static_cast<uint64_t>(searched));
